@@ -17,7 +17,8 @@ MUST_HIT = ['Interp.compared', 'Interp.return-value', 'Interp.final-state', 'Fea
             'Feature.where', 'Feature.relate', 'Feature.foreach', 'Feature.while', 'Feature.delete',
             'Feature.select_related', 'Feature.return', 'Feature.break-continue', 'Feature.elif',
             'Selection.select-related-where-first-fails-later-matches',
-            'Selection.select-from-where-first-fails-later-matches', 'Selection.select-where-executed-again', 'Arithmetic.inexact-integer-division']
+            'Selection.select-from-where-first-fails-later-matches', 'Selection.select-where-executed-again', 'Arithmetic.inexact-integer-division',
+            'Generator.unary-over-unary', 'Generator.loop-variable-reused', 'Generator.loop-variable-reused-empty-set']
 MUST_REACH = ['bridgepoint/interpret.py:run_function', 'bridgepoint/interpret.py:ActionWalker.accept_WhileNode',
               'bridgepoint/interpret.py:ActionWalker.accept_ForEachNode',
               'bridgepoint/interpret.py:ActionWalker.accept_SelectFromWhereNode',
@@ -236,6 +237,9 @@ def run_case(ctx, rng, case_policy='lower', layout='canonical'):
     for x, n in clean.events.items():
         if not x.startswith('_'):
             ctx.hit(('Selection.' if x.startswith('select') else 'Arithmetic.') + x, n)
+    for x, n in stats.items():
+        if x != 'discarded' and n:
+            ctx.hit('Generator.' + x, n)
     nontrivial = 'loop' in f and 'where' in f and 'relate' in f and len(stmts) >= 8
     ctx.case((pop_desc, text), nontrivial, sample=dict(program=text, returns=exp_ret))
     ctx.count('programs')
